@@ -2,9 +2,10 @@
 on a path they act segment-wise and keep exact joints exact.
 
 Theorems: coq/Props/C10.v (model coq/Model/Xform.v, + Model/Arc.v, Model/Bezier.v).
-Ties:  translator (GenXform: bez2poly, first statement of scale_bezier; the four
-       functions end in a constructor call and are outside the subset) + agreement
-       lemmas GenAgree/Xform.v;
+Ties:  translator (GenXform: translate / rotate (explicit and default origin) / scale (sy given
+       and None) on Line, QuadraticBezier, CubicBezier and Arc objects, bez2poly; transform is
+       numpy matrix code outside the subset) + 23 agreement lemmas GenAgree/Xform.v against the
+       kernels of Model/Xform.v;
        correspondence INSIDE Coq:
          * Bezier segments in exact rationals (NumQ): the implementation's new control
            points against the model kernel, and X(seg).point(t) against the theorem's
@@ -649,6 +650,11 @@ def run(rep, tier, seed, replay=None):
 
     with common.Scratch() as tmp:
         info = common.std_static(rep, 'C10', GEN_GROUPS, AGREE, tmp)
+        if info['agree_failed']:
+            rep.violation('agreement lemma(s) %s no longer check: generated code differs from the model'
+                          % info['agree_failed'],
+                          {'kind': 'agreement', 'lemmas': info['agree_failed'], 'file': 'coq/GenAgree/Xform.v',
+                           'messages': info.get('agree_msgs', {})}, found_input=False, key='agree')
         cj, tri_closed = detect_closing_joint()
         if cj is None or tri_closed != cj:
             rep.violation('Path.joints() is neither of the two modelled variants (n-1 consecutive pairs / with the '
@@ -666,7 +672,7 @@ def run(rep, tier, seed, replay=None):
         okdef_f = OKDEF_F.replace('@CJ@', coq_bool(cj))
         quick = tier == 'quick'
         n_bez, n_arc, n_path = (600, 240, 400) if quick else (12000, 4000, 8000)
-        lost = [k for k in info['untranslated'] if k.startswith('gen_bez2poly')]
+        lost = [k for k in info['untranslated'] if k != 'gen_transform_Line']   # numpy matrix code: never in the subset
         if info['agree_failed'] or lost:
             n_bez *= 3; n_arc *= 2; n_path *= 2
 
@@ -985,11 +991,6 @@ def run(rep, tier, seed, replay=None):
         rep.cov['samples'] = [m[2]['python'] for m in bez_meta[:2]] + [m[2]['python'] for m in arc_meta[:2]] + \
                              [m['python'][:300] for m in path_meta[:1]]
         rep.cov['violation_counts'] = {k: v[0] for k, v in found.items()}
-        if info['agree_failed'] and not rep.violations:
-            rep.violation('agreement lemma(s) %s no longer check: generated code differs from the model'
-                          % info['agree_failed'],
-                          {'kind': 'agreement', 'lemmas': info['agree_failed'], 'file': 'coq/GenAgree/Xform.v',
-                           'messages': info.get('agree_msgs', {})}, found_input=False, key='agree')
     rep.assumptions += [
         'exp(1j*radians(degs)) enters the exact-rational Bezier model as data (the implementation\'s libm values)',
         'numpy tf.dot / np.linalg.inv are the exact row-by-column sum / adjugate formula; np.linalg.eig is an oracle '
